@@ -74,3 +74,16 @@ m("c06-unknown-phase-ignored", ["C06"], Y,
 m("c06-first-phase-solved-twice", ["C06"], Y,
   "            v, i, iters, state = self._solve(vtol, itol, maxiter, quiet, ph)",
   "            v, i, iters, state = self._solve(vtol, itol, maxiter, quiet, ph if len(phase_list) < 3 or ph != phase_list[-1] else phase_list[0])")
+
+# ---- C05 -------------------------------------------------------------------------------------
+m("c05-priority-picks-last-live", ["C05"], C,
+  "            if pstate[\"off\"][i] == False and abs(vi[i]) != 0.0:\n                inp = i\n                break",
+  "            if pstate[\"off\"][i] == False and abs(vi[i]) != 0.0:\n                inp = i")
+m("c05-rs-first-entry-always", ["C05"], C, "            r = abs(self._params[\"rs\"][pinp])", "            r = abs(self._params[\"rs\"][0])")
+m("c05-domain-ignores-dead-leading-inputs", ["C05"], Y,
+  "            for i in reversed(range(len(vin))):\n                if abs(vin[i]) != 0.0:\n                    idx = i",
+  "            for i in reversed(range(len(vin))):\n                if abs(vin[i]) != 0.0 and False:\n                    idx = i")
+m("c05-mux-parent-label-grandparent", ["C05"], Y,
+  "                        pn = self._g[p[pinp]]._params[\"name\"]", "                        pn = self._get_parent_name(p[pinp])")
+m("c05-mux-vin-first-input", ["C05"], Y,
+  "                    if pinp != -1 and len(p) > 1:\n                        vi = v[p[pinp]]", "                    if pinp != -1 and len(p) > 1:\n                        vi = v[p[0]]")
